@@ -21,7 +21,8 @@ RULE = ('Generated valid documents (1..4 paragraphs, fields with 0..2 own commen
         'spaces, trailing blanks, 0..3 continuation lines with space/tab/multi-space markers and interleaved comment lines, '
         'separators "\\n", "\\n\\n", " \\n", free comment blocks, leading/trailing blocks, with/without final newline) x '
         'histories of 1..6 set/add/delete operations with single- and multi-line new values and keys in original/upper/'
-        'lower case; about 1% of the documents are BIG (8..30 paragraphs of 10..40 fields).  Non-trivial: document has >= 2 paragraphs or comments or multi-line values, and >= 1 mutating op.')
+        'lower case; about 1% of the documents are BIG (8..30 paragraphs of 10..40 fields); 40% of the histories also hold 1-3 REFUSED operations '
+        '(values that cannot be field values, names that cannot be field names, deletion of an absent field), after which the document must be as before.  Non-trivial: document has >= 2 paragraphs or comments or multi-line values, and >= 1 mutating op.')
 ASSUMPTIONS = ['only the position, line-wholeness and name of the rewritten field text are constrained, never its exact formatting',
                'deleting a field may or may not take the field\'s own comment lines with it (the statement leaves that open); both accepted',
                'a paragraph is emptied only transiently: deleting its only field is always followed at once by adding a field to it (the dump is still compared byte-for-byte in between; the fresh-parse comparison resumes after the refill)',
